@@ -106,7 +106,8 @@ def run(ctx):
     fails = validate(ctx, hists) if hists else []
     if hists and not fails:
         raise Machinery("walker flagged histories that TLC accepts")
-    ctx.count(res["paths"], [])
+    # every enumerated history is distinct by construction; non-trivial = at least one delivery happened in it
+    ctx.count(res["paths"], [("testdrv-history", i) for i in range(res.get("with_delivery", 0))])
     ctx.cov["traces_validated_against_impl"] += res["paths"]
     ctx.cov["exhaustive_testdrv_histories"] = {"length": res["depth"], "histories": res["paths"], "calls": res["steps"]}
     from props import mcat
